@@ -273,7 +273,21 @@ def _run_job(pid, job, opts, res, ctl=None):
     path_no = [0]
     job_pub = {k: v for k, v in job.items() if k != 'mutation'}
 
+    halt_after = job.get('halt_after_violations')       # canaries: the first reproduced violations settle the question
+
+    def maybe_halt():
+        if halt_after and len(res['violations']) >= halt_after:
+            vm.halt_requested = True
+            if ctl is not None:
+                ctl.halt.value = 1
+
     def on_path(vm_, rec):
+        try:
+            _on_path(vm_, rec)
+        finally:
+            maybe_halt()
+
+    def _on_path(vm_, rec):
         path_no[0] += 1
         kind, val = rec.outcome
         res['paths'] += 1
@@ -483,6 +497,7 @@ def run_canaries(pid, mod, seed):
         job = dict(c['job'])
         job['name'] = 'canary:' + c['name']
         job['mutation'] = dict(name=c['name'], target=c['target'], mutate=c['mutate'])
+        job.setdefault('halt_after_violations', 2)
         tasks.append((pid, job, dict(seed=seed, deadline=time.time() + 1200)))
     for r in run_pool(tasks):
         killed = bool(r['violations']) and not r['harness_errors']
